@@ -18,7 +18,7 @@ import random
 import casadi as cs
 import numpy as np
 
-from vf import compiled as C, compilecases as CC, desc as D, gen as G, refmodel as R, selfcheck, workloads as W
+from vf import compiled as C, compilecases as CC, desc as D, drive, gen as G, refmodel as R, selfcheck, workloads as W
 from vf.env import Inconclusive
 
 PROP = "C04"
@@ -356,6 +356,82 @@ def run(M, rec, tier, seed, k, n):
             rec.count("networks_with_clashing_argument_names", 1 if clashing else 0)
         for st in ("SX", "MX"):
             one_case(M, rec, rng, g, desc, pars, st, clashing)
+            if it % 5 == 2:
+                extra_state_kind(M, rec, rng, st)
+
+
+def extra_state_kind(M, rec, rng, st):
+    """A user-defined kind that ADDS a state to a stock kind (a link integrating its total time spent in a
+    state `tts`, held after rho and v).  Layout-only oracle built from the live objects, no table of kinds:
+    arguments = the elements' variables in enumeration order and in the order each element holds them; results
+    = the same elements' own next states, each in the position of its state (grouped / stacked by name at
+    levels 1 / 2).  Both sides are evaluated at a random point."""
+    from vf import userkinds as UK
+
+    NE, CE = drive.engines(M)
+    mk = lambda cls, N, nm, **kw: cls(N, rng.choice((2, 3)), 1.0, 180.0, 33.5, 102.0, 1.867, name=nm, **kw)  # noqa: E731
+    n1, n2, n3 = M.Node(name="A"), M.Node(name="B"), M.Node(name="C")
+    l1 = mk(UK.TtsLink, rng.choice((2, 3)), "L1")
+    l2 = mk(rng.choice((UK.TtsLink, M.Link)), rng.choice((1, 2)), "L2")
+    org = rng.choice((M.MeteredOnRamp(2000.0, name="O1"), M.MainstreamOrigin(name="O1")))
+    net = M.Network().add_path((n1, l1, n2, l2, n3), origin=org, destination=M.Destination(name="D1"))
+    eng = CE(st)
+    pars = dict(T=10 / 3600, tau=18 / 3600, eta=60.0, kappa=40.0)
+    try:
+        net.step(engine=eng, **pars)
+    except Exception as e:
+        rec.violation(f"{PROP}:a network with a user-defined link kind that adds a state cannot be stepped ({type(e).__name__})", {"exception": repr(e)[:300]})
+        return
+    els = list(net.elements)
+    S = [(el, nm) for el in els if el.states for nm in el.states]
+    U = [(el, nm) for el in els if el.actions for nm in el.actions]
+    Dd = [(el, nm) for el in els if el.disturbances for nm in el.disturbances]
+    ins = [el.states[nm] for el, nm in S] + [el.actions[nm] for el, nm in U] + [el.disturbances[nm] for el, nm in Dd]
+    outs = [el.next_states[nm] for el, nm in S]
+    G_ = cs.Function("G", ins, outs)
+    vals = [np.array([rng.uniform(5, 90) for _ in range(x.numel())]) for x in ins]
+    for i_, (el, nm) in enumerate(S + U + Dd):
+        if nm == "r":
+            vals[i_] = np.array([rng.random()])
+    want0 = [np.asarray(o, dtype=float).ravel() for o in (G_(*vals) if len(outs) > 1 else [G_(*vals)])]
+
+    def grouped(items, arrays):
+        names = []
+        for _el, nm in items:
+            if nm not in names:
+                names.append(nm)
+        return [np.concatenate([a for (_e, n_), a in zip(items, arrays) if n_ == nm]) for nm in names]
+
+    nS, nU = len(S), len(U)
+    for compact in (0, 1, 2):
+        rec.count("extra_state_kind_layout_checks")
+        try:
+            F = eng.to_function(net, compact=compact, **pars)
+        except Exception as e:
+            rec.violation(f"{PROP}:compact={compact}: a network with a user-defined link kind that adds a state cannot be compiled ({type(e).__name__})",
+                          {"exception": repr(e)[:300]})
+            continue
+        if compact == 0:
+            args, want = vals, want0
+        else:
+            gx, gu, gd = grouped(S, vals[:nS]), grouped(U, vals[nS:nS + nU]), grouped(Dd, vals[nS + nU:])
+            wx = grouped(S, want0)
+            if compact == 1:
+                args, want = gx + gu + gd, wx
+            else:
+                args = [np.concatenate(g_) if g_ else np.zeros(0) for g_ in (gx, gu, gd)]
+                want = [np.concatenate(wx)]
+        try:
+            got = F(*args)
+            got = [np.asarray(o, dtype=float).ravel() for o in (got if isinstance(got, (list, tuple)) else [got])]
+        except Exception as e:
+            rec.violation(f"{PROP}:compact={compact}: the function of a network with an added-state kind cannot be called with its variables in the documented layout ({type(e).__name__})",
+                          {"exception": repr(e)[:300], "argument_sizes": [int(np.size(a)) for a in args]})
+            continue
+        ok = len(got) == len(want) and all(g_.shape == w_.shape and np.allclose(g_, w_, rtol=1e-9, atol=1e-9) for g_, w_ in zip(got, want))
+        if not ok:
+            rec.violation(f"{PROP}:compact={compact}: with a user-defined kind that adds a state, results are not the successors of the state arguments in the same positions",
+                          {"sym_type": st, "states_in_order": [f"{nm}_{el.name}" for el, nm in S], "result_names": list(F.name_out())})
 
 
 def finish(M, rec, write=True):
